@@ -208,28 +208,33 @@ def variables(m) -> set:
     return set()
 
 
-def nf_problem(m, top=True):
-    """None if m is in the normal form of C15, else a description"""
+def nf_problems(m, top=True):
+    """every way in which m departs from the normal form of C15 (empty list: m is in normal form).  A grouped ==/!= atom needs at least one
+    value (with none it would be the empty / universal marker without saying so); the property puts no other constraint on its size."""
     k = kind(m)
     if k in ("AnyMarker", "EmptyMarker"):
-        return None if top else f"{k} nested inside a compound"
+        return [] if top else [f"{k} nested inside a compound"]
     if k == "MarkerExpression":
-        return None
+        return []
     if k in ("EqualityMarkerUnion", "InequalityMultiMarker"):
         n = len(list(m.values))
-        return None if n >= 2 else f"{k} atom group with {n} value(s)"
+        return [] if n >= 1 else [f"{k} atom group with {n} value(s)"]
     if k in ("MultiMarker", "MarkerUnion"):
+        out = []
         cs = list(m.markers)
         if len(cs) < 2:
-            return f"{k} with {len(cs)} child(ren)"
+            out.append(f"{k} with {len(cs)} child(ren)")
         for i, c in enumerate(cs):
             if kind(c) == k:
-                return f"{k} directly inside {k}"
-            for d in cs[:i]:
-                if c == d:
-                    return f"{k} with duplicate children"
-            p = nf_problem(c, top=False)
-            if p:
-                return p
-        return None
-    return f"unexpected class {k}"
+                out.append(f"{k} directly inside {k}")
+            if any(c == d for d in cs[:i]):
+                out.append(f"{k} with duplicate children")
+            out.extend(nf_problems(c, top=False))
+        return list(dict.fromkeys(out))
+    return [f"unexpected class {k}"]
+
+
+def nf_problem(m, top=True):
+    """None if m is in the normal form of C15, else the first description"""
+    ps = nf_problems(m, top)
+    return ps[0] if ps else None
